@@ -241,6 +241,17 @@ func zzBuild(a *zzAbs) ControlPacket {
 	case 14:
 		p := NewDisconnect()
 		p.SetReasonCode(ReasonCode(a.reason))
+		for i := range a.props {
+			q := &a.props[i]
+			switch q.id {
+			case 0x11:
+				p.SetSessionExpiryInterval(q.u)
+			case 0x1c:
+				p.SetServerReference(string(q.s))
+			case 0x1f:
+				p.SetReasonString(string(q.s))
+			}
+		}
 		zzAddUser(&p.UserProperties, a.props)
 		return p
 	case 15:
